@@ -2,8 +2,11 @@
   Driver for C05.  stdin: one case per line, stdout: `<model observation>\t<spec>`.
 
   Case line = five sections separated by ` | `:
-    T <tree> W <word> A <assignments> G <0|1>      what the harness builds/runs (only `G` is read here: 1 = glob on)
-    F <c,c,…>            the attributed field: `<code point hex>:<L|H|S><quoted 0|1><quoting 0|1>`
+    T <tree> W <words>|D <fields> A <assignments> [R <n>] G <0|1> [C <context>]
+                         what the harness builds/runs; read here: `G` (1 = glob on) and `C` (`scalar`/`decl` =
+                         expansion mode Single; `cmd`/`for`/`arr`/`direct` or absent = Multiple)
+    F <field;field;…>    the attributed fields after field splitting, each `<c,c,…>` with
+                         `c = <code point hex>:<L|H|S><quoted 0|1><quoting 0|1>`; `-` = empty field, `/` = no field
     E <hex,hex,…>        the pathnames (among those the case can ask about) for which `file_exists` holds
     L <dir>=<n.n.…>,…    the directories that `opendir` can list, with their entry names (hex)
     M <pcs>=<kind>[=<n.n.…>],…   per component pattern (`n<cp>`/`l<cp>` joined by `.`): what yash_fnmatch
@@ -43,6 +46,14 @@ def listOf (t : String) (sep : String) : List String :=
 
 def parseField (t : String) : Option (List AttrChar) :=
   (listOf t ",").mapM parseAttr
+
+def parseFields (t : String) : Option (List (List AttrChar)) :=
+  if t == "/" then some [] else (t.splitOn ";").mapM parseField
+
+/-- value following the key `k` among the tokens -/
+def keyed (k : String) : List String → Option String
+  | a :: b :: rest => if a == k then some b else keyed k (b :: rest)
+  | _ => none
 
 def parsePc (t : String) : Option PatternChar :=
   match t.toList with
@@ -109,17 +120,20 @@ def wfDump (fs : Fs) (e : List Path) (l : List (Path × List Name)) (univ : List
       && univ.all (fun n => !(validName n && fs.exist (pre ++ n)) || ns.contains n))
   && e.all (fun p => (slashPrefixes [] p).all fs.exist)
 
-def showFields (l : List Path) : String := ",".intercalate (l.map encChars)
+def showFields (l : List Path) : String :=
+  if l.isEmpty then "none" else ",".intercalate (l.map encChars)
 
 def runLine (line : String) : String :=
   match splitTrim line "|" with
   | [prim, f, e, l, mm] =>
     let r : Option String := do
       let pw := words prim
-      let g ← pw.getLast?
+      let g ← keyed "G" pw
       let noglob := g == "0"
-      let field ← match words f with
-        | ["F", t] => parseField t
+      let ctx := (keyed "C" pw).getD "cmd"
+      let mode := if ctx == "scalar" || ctx == "decl" then Mode.single else Mode.multiple
+      let fields ← match words f with
+        | ["F", t] => parseFields t
         | _ => none
       let es ← match words e with
         | ["E", t] => (listOf t ",").mapM decChars
@@ -132,15 +146,16 @@ def runLine (line : String) : String :=
         | _ => none
       let m := mkMatcher tab
       let fs := mkFs es ls
-      let comps := splitComponents field
-      let missing := (comps.1 :: comps.2).any (fun c => (lookupM tab (toPattern c)).isNone)
-      if missing && !noglob then
+      let missing := fields.any fun field =>
+        let comps := splitComponents field
+        (comps.1 :: comps.2).any (fun c => (lookupM tab (toPattern c)).isNone)
+      if missing && !noglob && mode == Mode.multiple then
         pure "MISSING-PATTERN\t-"
       else
-        let out := glob m fs noglob field
+        let out := expandFields m fs noglob mode fields
         let univ := (ls.flatMap (·.2)).eraseDups
         let spec :=
-          if wfDump fs es ls univ then "=" ++ showFields (specGlobU m fs univ noglob field) else "-"
+          if wfDump fs es ls univ then "=" ++ showFields (specFieldsU m fs univ noglob mode fields) else "-"
         pure (showFields out ++ "\t" ++ spec)
     r.getD "bad-case\t-"
   | _ => "bad-case\t-"
